@@ -200,7 +200,7 @@ SEP_WITNESS = dict(D=10, dtq=Fr(5), dt=5.0, dflt=[(Fr(1), 1.0)],
 def run_correspondence(rep, rng, n, tier):
     cases = [(name, c, b) for name, c in fixed_cases() for b in BACKENDS]
     for i in range(n):
-        c = T.gen_case(rng, max_points=(700 if tier == "quick" else 4000), small=(rng.random() < 0.3))
+        c = T.gen_case(rng, max_points=(700 if tier == "quick" else 2000), small=(rng.random() < 0.3))
         # the probe observable gets its own times (or the default)
         k = rng.random()
         if c["dflt"] == "Full" or k < 0.6:
@@ -382,8 +382,8 @@ def check(rep: Report, tier: str, seed: int) -> None:
     T.compat.install()
     lean_stage(rep, PROP_MODULE, AUDIT, thorough=(tier == "thorough"))
     rng = seeded(seed * 7919 + 14)
-    l0, finish = run_correspondence(rep, rng, 150 if tier == "quick" else 4000, tier)
-    l1, e1 = call_level(rep, rng, 500 if tier == "quick" else 20000)
+    l0, finish = run_correspondence(rep, rng, 150 if tier == "quick" else 1000, tier)
+    l1, e1 = call_level(rep, rng, 500 if tier == "quick" else 10000)
     # the SepObs witness of Props.C14.sep_needed, replayed on the real code (documented, not a failure)
     try:
         r = real_run(SEP_WITNESS, "sv")
